@@ -94,6 +94,12 @@ func runUnit(a []string) int {
 	nsh, _ := strconv.Atoi(a[3])
 	base, _ := strconv.ParseInt(a[5], 10, 64)
 	c := newCtx(u, a[4], base, shard, nsh, a[6])
+	if os.Getenv("VERIF_HANG_DUMP") == "" {
+		// the text on which an in-process yaccgo call got stuck is kept for C13's replay
+		d := filepath.Join(c.Verif, "replays")
+		os.MkdirAll(d, 0o755)
+		os.Setenv("VERIF_HANG_DUMP", d)
+	}
 	func() {
 		defer func() {
 			if e := recover(); e != nil {
@@ -105,7 +111,7 @@ func runUnit(a []string) int {
 		u.Run(c)
 	}()
 	if yg.Hung() && u.Prop != "C13" {
-		c.Infra("an in-process call into yaccgo did not return within %v (termination is property C13; this unit gave up)", yg.BuildDeadline)
+		c.Infra("an in-process call into yaccgo did not return within %v (termination is property C13; this unit gave up; the input is kept as %s/hung-%d.y)", yg.BuildDeadline, os.Getenv("VERIF_HANG_DUMP"), os.Getpid())
 	}
 	c.finish()
 	b, _ := json.Marshal(&c.P)
